@@ -23,17 +23,17 @@ Full statement / proved / missing
 * `C17_pos_named`      — proved: `newNamed t (toHash t vs)` succeeds and is `equals` to `newPos t vs` (both directions), and
                          denotes the same value at EVERY position (not only the ones Equals looks at).
 * `C17_inithash`       — proved: `newNamed t (initHash o)` succeeds, is `equals` to `o`, same value at every position.
-* `C17_equality`       — proved for objects whose types are the same whenever `Equals` calls them equal (a name identifies a
+* `C17_equality_partial` — proved for objects whose types are the same whenever `Equals` calls them equal (a name identifies a
                          type within a loader): `equals o o' = true ↔ tyEq ∧ ∀ a ∈ eqAttrNames t, get o a = get o' a`;
                          `equals` never faults (`C17_equals_total`).  `eqAttrNames` = the equality lists declared through the
                          chain that have a position (after the fixes: a derived / unlisted attribute is skipped, an explicitly
                          empty list is a declaration), or every positional attribute when none is declared.
                          FULL statement `C17_equality_full` (with `equality_include_type => false` the types need not be
-                         equal) is FALSE of model and code: `C17_include_type_ignored` (known finding
-                         C17-equality-include-type).
+                         equal) is FALSE of model and code: `C17_include_type_ignored`, `C17_equality_full_false` (known
+                         finding C17-equality-include-type).
 * `C17_subtype`        — proved: an ancestor (any non-empty suffix of the level list) accepts every instance;
                          `C17_subtype_strict`: a type never accepts an instance of a proper ancestor.
-* `C17_schema`         — proved at model level: every `WellFormedDef` (attributes well-formed on their own and not clashing
+* `C17_schema_partial` — proved at model level: every `WellFormedDef` (attributes well-formed on their own and not clashing
                          with an inherited member, equality names non-constant attributes not already in an inherited
                          equality, serialization names positional attributes with required never after optional) is accepted
                          by `define`.  Missing: that the parsed text / init-hash of such a definition is an instance of the
@@ -97,7 +97,7 @@ structure WellFormedDef (env : List OType) (d : Def) : Prop where
 /-- model-level statement of "every definition the schema admits is accepted".  Missing (not modelled): that the parsed
     text / init-hash of such a definition is an instance of the Struct `TypeObjectInitHash` (checked by the
     correspondence run, predicate class `schema-admitted-rejected`). -/
-theorem C17_schema {env : List OType} {d : Def} (h : WellFormedDef env d) : ∃ t, define env d = .ok t := by
+theorem C17_schema_partial {env : List OType} {d : Def} (h : WellFormedDef env d) : ∃ t, define env d = .ok t := by
   obtain ⟨as, has⟩ := defineAttrs_succeeds h.attrs h.override
   have heq := checkEquality_succeeds (h.equality as has)
   have hser : checkSerialization as (parentOf env d) false (d.serialization.getD []) = .ok () := by
@@ -276,7 +276,7 @@ theorem C17_equals_total {o o' : Obj} (hw : WF o.typ) (hv : Valid o) (hv' : Vali
     exact ⟨_, equals_den hw.tailOpt hv.req hv'.req⟩
   · exact ⟨false, by unfold equals; simp [ht]⟩
 
-theorem C17_equality {o o' : Obj} (hw : WF o.typ) (hv : Valid o) (hv' : Valid o')
+theorem C17_equality_partial {o o' : Obj} (hw : WF o.typ) (hv : Valid o) (hv' : Valid o')
     (hname : tyEq o.typ o'.typ = true → o'.typ = o.typ) :
     equals o o' = .ok true ↔ (tyEq o.typ o'.typ = true ∧ ∀ n ∈ eqAttrNames o.typ, get o n = get o' n) := by
   by_cases ht : tyEq o.typ o'.typ = true
@@ -330,6 +330,22 @@ theorem C17_include_type_ignored :
     equals { typ := [lvA 0], values := [.int 1] } { typ := [lvA 1], values := [.int 1] } = .ok false ∧
     get { typ := [lvA 0], values := [.int 1] } "a" = get { typ := [lvA 1], values := [.int 1] } "a" := by
   constructor <;> rfl
+
+theorem wf_lvA (id : Nat) : WF [lvA id] :=
+  wf_noSerialization ⟨by simp [eachAttribute, lvA], by
+    intro a ha
+    simp [eachAttribute, lvA] at ha
+    subst ha
+    intro hk; cases hk⟩ rfl
+
+/-- the full statement is false (of the model, and — replayed by the harness — of the code) -/
+theorem C17_equality_full_false : ¬ C17_equality_full := by
+  intro h
+  have h1 := (h { typ := [lvA 0], values := [.int 1] } { typ := [lvA 1], values := [.int 1] }
+    (wf_lvA 0) (wf_lvA 1) ⟨by decide, rfl⟩ ⟨by decide, rfl⟩).mpr
+      ⟨by intro hc; exact absurd hc (by decide), by intro n _; rfl⟩
+  rw [C17_include_type_ignored.1] at h1
+  cases h1
 
 /-! ### an instance of a subtype is an instance of every ancestor and never the reverse -/
 
@@ -452,7 +468,7 @@ example : ∃ o', newNamed sampleT2 [("a", .int 1)] (.hash "") = .ok o' ∧
     equals { typ := sampleT2, values := [.int 1] } o' = .ok true := by
   obtain ⟨o', h1, _, h2, _⟩ := C17_pos_named (.hash "") sampleWF (rfl : newPos sampleT2 [.int 1] = .ok _)
   exact ⟨o', h1, h2⟩
-/-- hypotheses of `C17_inithash` / `C17_equality`: an object with a default-valued and a non-default trailing value -/
+/-- hypotheses of `C17_inithash` / `C17_equality_partial`: an object with a default-valued and a non-default trailing value -/
 example : Valid { typ := sampleT2, values := [.int 1, .bool true, .str "x"] } := ⟨by decide, rfl⟩
 example : initHash { typ := sampleT2, values := [.int 1, .bool true, .str "x"] } = [("a", .int 1), ("b", .str "x")] := rfl
 example : eqAttrNames sampleT2 = ["c", "a"] := rfl
@@ -461,7 +477,7 @@ example : sampleT0 ≠ [] ∧ sampleT0 <:+ sampleT2 ∧ sampleT0 ≠ sampleT2 :=
   ⟨by decide, ⟨sampleT2.take 2, rfl⟩, by decide⟩
 example : isInstance sampleT0 { typ := sampleT2, values := [.int 1] } = true ∧
     isInstance sampleT2 { typ := sampleT0, values := [.int 1] } = false := ⟨rfl, rfl⟩
-/-- hypotheses of `C17_schema`: the first sample definition is well-formed in the model's terms -/
+/-- hypotheses of `C17_schema_partial`: the first sample definition is well-formed in the model's terms -/
 example : WellFormedDef [] (sampleDefs.headD default) := by
   refine ⟨?_, ?_, ?_, ?_⟩
   · intro a ha
